@@ -725,6 +725,19 @@ func (e *robustEnv) call(ep, template string, input interface{}) (outcome string
 
 		_, err := e.applier.Apply(op, rm)
 
+		// the same request anchored under each of the other operation types (what a ledger says an operation is and what the
+		// request says need not agree), against the empty and against an existing state
+		for _, ty := range []operation.Type{operation.TypeCreate, operation.TypeUpdate, operation.TypeRecover, operation.TypeDeactivate, "bogus", ""} {
+			if ty == opType {
+				continue
+			}
+
+			for _, st := range []*protocol.ResolutionModel{{}, e.existRM} {
+				alt := *st
+				_, _ = e.applier.Apply(&operation.AnchoredOperation{Type: ty, UniqueSuffix: testSuffix, OperationRequest: raw, TransactionTime: 1}, &alt)
+			}
+		}
+
 		// the same operation against states whose anchor origin is a string, an object, a list (what a state holds is
 		// compared with what a request brings: every pairing of kinds has to be survived)
 		if opType != operation.TypeCreate {
